@@ -41,6 +41,9 @@ def texts(rng, tier):
 
 def run(tier="quick", seed=0, arg=None):
     rng = Rng(seed)
+    # guard of a transcribed assumption (A-PKG-EVAL, contracts/atoms.py: PKG_VERSION_KEYS): the variables packaging compares as versions
+    from packaging.markers import MARKERS_REQUIRING_VERSION
+    assert set(MARKERS_REQUIRING_VERSION) == {"implementation_version", "platform_release", "python_full_version", "python_version"}, MARKERS_REQUIRING_VERSION
     envs = [e for e in environments(full=(tier != "quick")) if isinstance(e["extra"], str)]
     fails, evals, timeouts, distinct, samples = [], 0, 0, set(), []
     for t in texts(rng, tier):
